@@ -1,5 +1,5 @@
 //@unit C10_topx
-//@props C10 C13 C01
+//@props C10 C13 C01 C02
 //@safetyprops C14
 //@desc GetDx and TopX (slope and x-at-scanline of an edge), both build configurations of nothing: integer arithmetic only. GetDx: no signed overflow for |coordinates| < 2^62, horizontal edges give -/+DBL_MAX by direction, never NaN. TopX: returns the END POINT exactly at currentY == top.y and currentY == bot.y (what C02/C18 use: scanline crossings at vertices are exact) and top.x for vertical edges; between the end points the integer subtraction cannot overflow; the double->int64 conversion and the final addition are safe GIVEN the assumed bound on the rounded product (A-float).
 #include "vf.h"
